@@ -306,6 +306,9 @@ def map(
     if isinstance(resolution, int):
         resolution = {"x": resolution, "y": resolution}
     else:
+        # Work on a copy: the defaults filled in below must not leak into the
+        # dict of the caller (who may reuse it for another map)
+        resolution = dict(resolution)
         for xy in "xy":
             if xy not in resolution:
                 resolution[xy] = default_resolution
